@@ -72,7 +72,12 @@ def code_view(x):
 
 def cmp_class(r, l): return r.split(' ', 1)[0] == l.split(' ', 1)[0] and not r.endswith(POST_PANIC)
 def cmp_accept(r, l): return drop_kind(r) == drop_kind(l)
-def cmp_cost(r, l): return drop_kind(r, True) == drop_kind(l, True)
+def cmp_cost(r, l):
+    """C07: same verdict (and value), and the crate examines NO MORE octets than the model, whose count is the one the
+    bound is proved for (examining fewer - failing faster - cannot break a bound from above)"""
+    if drop_kind(r) != drop_kind(l): return False
+    cr = common.strip_cost(r)[1]; cl = common.strip_cost(l)[1]
+    return cr is None or cl is None or cr <= cl
 def cmp_code(r, l): return code_view(r) == code_view(l)
 def cmp_rt(r, l):
     if l.endswith(OVERSIZE):
